@@ -262,8 +262,8 @@ theorem RoundT.u4 (R : RoundT cfg v La vb v' La') (h3 : VU3 v La) : v'.quiescent
   | false => exact (rb1.append rb2).rr_false pb.rr (by intro p hp; simp at hp; exact hTa p hp)
 
 /-- **four rounds of the fair suffix end quiescent** -/
-theorem four_roundsT {v0 b1 v1 b2 v2 b3 v3 b4 v4 : View} {L1 L2 L3 L4 : List Flushed}
-    (R1 : RoundT cfg v0 [] b1 v1 L1) (R2 : RoundT cfg v1 L1 b2 v2 L2) (R3 : RoundT cfg v2 L2 b3 v3 L3)
+theorem four_roundsT {v0 b1 v1 b2 v2 b3 v3 b4 v4 : View} {L0 L1 L2 L3 L4 : List Flushed}
+    (R1 : RoundT cfg v0 L0 b1 v1 L1) (R2 : RoundT cfg v1 L1 b2 v2 L2) (R3 : RoundT cfg v2 L2 b3 v3 L3)
     (R4 : RoundT cfg v3 L3 b4 v4 L4) : v4.quiescent :=
   R4.u4 (R3.u3 (R2.u2 (fun x => R1.u1 x)))
 
